@@ -3,19 +3,20 @@ import CruxVerif.Lemmas.Refs
 namespace M.Rt
 
 /-- `New` = what is known about every task that a step adds to a spawn queue -/
-structure TKp (New : Task → Prop) (w w' : World) : Prop where
+structure TKp (New : Nat → Task → Prop) (w w' : World) : Prop where
   /-- no command's task slab is touched -/
   tasks : ∀ c, (w'.cmd c).tasks = (w.cmd c).tasks
   /-- whatever is new in a spawn queue satisfies `New` -/
-  spawn : ∀ c t, t ∈ (w'.cmd c).spawnQ → t ∈ (w.cmd c).spawnQ ∨ New t
+  spawn : ∀ c t, t ∈ (w'.cmd c).spawnQ → t ∈ (w.cmd c).spawnQ ∨ New c t
 
 /-- the instance used for ownership: new spawn-queue members are host-free -/
-abbrev TK := TKp (fun t => hostFreeB t.fut = true)
+abbrev TK := TKp (fun _ t => hostFreeB t.fut = true)
 
-variable {New : Task → Prop}
+variable {New : Nat → Task → Prop}
 
-theorem TKp.imp {New' : Task → Prop} {w w' : World} (h : TKp New w w') (hi : ∀ t, New t → New' t) : TKp New' w w' :=
-  ⟨h.tasks, fun c t ht => (h.spawn c t ht).imp id (hi t)⟩
+theorem TKp.imp {New' : Nat → Task → Prop} {w w' : World} (h : TKp New w w') (hi : ∀ c t, New c t → New' c t) :
+    TKp New' w w' :=
+  ⟨h.tasks, fun c t ht => (h.spawn c t ht).imp id (hi c t)⟩
 
 theorem TKp.refl (w : World) : TKp New w w := ⟨fun _ => rfl, fun _ _ h => Or.inl h⟩
 theorem TKp.trans {w1 w2 w3 : World} (h12 : TKp New w1 w2) (h23 : TKp New w2 w3) : TKp New w1 w3 :=
@@ -47,7 +48,7 @@ theorem tk_modCmd (w : World) (c : Nat) (f : CmdSt → CmdSt) (hf : ∀ x, (f x)
     · rw [World.cmd_modCmd_other w c c' f h] at ht; exact ht
 
 /-- spawning a host-free task -/
-theorem tk_spawn (w : World) (c : Nat) (t0 : Task) (h0 : New t0) :
+theorem tk_spawn (w : World) (c : Nat) (t0 : Task) (h0 : New c t0) :
     TKp New w (w.modCmd c fun x => { x with spawnQ := x.spawnQ ++ [t0] }) := by
   refine ⟨?_, ?_⟩
   · intro c'
@@ -167,7 +168,7 @@ theorem tk_newLeaf_sinkEffect (w : World) (k : Option Waker) (lg : Bool) (s : Si
     TKp New w ((w.newLeaf k lg).2.sinkEffect s e) :=
   TKp.trans (w2 := (w.newLeaf k lg).2) (tk_of_cmds rfl) (tk_sinkEffect _ s e)
 
-theorem tk_newMeta_spawn (W : World) (c : Nat) (t0 : Task) (h0 : New t0) :
+theorem tk_newMeta_spawn (W : World) (c : Nat) (t0 : Task) (h0 : New c t0) :
     TKp New W (W.newMeta.2.modCmd c fun x => { x with spawnQ := x.spawnQ ++ [t0] }) :=
   TKp.trans (w2 := W.newMeta.2) (tk_of_cmds rfl) (tk_spawn _ c t0 h0)
 
@@ -235,7 +236,7 @@ theorem tgood_succ (pn) (f : Nat) (ih : TGood pn f) : TGood pn (f + 1) := by
         | core =>
           simp only at h
           refine ih.via (w1 := _) ?_ (hidle _ _ hfr') h
-          have := tk_newLeaf_sinkEffect (New := fun t => hostFreeB t.fut = true) w (some wk) true .core
+          have := tk_newLeaf_sinkEffect (New := fun _ t => hostFreeB t.fut = true) w (some wk) true .core
             ⟨⟨n, env.eval e⟩, .once (w.newLeaf (some wk) true).1⟩
           exact ⟨fun c' => this.tasks c', fun c' t ht => this.spawn c' t ht⟩
       | await hd =>
